@@ -237,6 +237,22 @@ def needed_files(hs):
     return want
 
 
+IO_ERR_BLOCK = re.compile(r"\|_\| \{")
+IO_ERR_EXPR = re.compile(r"^(\s*)move \|_\| (Error::.*\))\s*$", re.M)
+
+
+def forget_read_errors(txt):
+    """Overlay transformation (model of a destructor, see DESIGN 2.3): a closure that ignores the error of a
+    failed read - `.map_err(|_| ..)` / `move |_| ..` - drops that error. For std::io::Error the drop goes
+    through Box<dyn Error>, which symbolic execution resolves to every Error type of the program, unrolling
+    the crate's own context-vector drop glue at every read site. Under cfg(kani) the ignored error is
+    forgotten instead of dropped; nothing else changes (the value is unused by construction: it is bound to
+    `_`). Not applied to the native replay semantics that matter: a leaked error cannot panic."""
+    txt = IO_ERR_BLOCK.sub("|_verif_err| { #[cfg(kani)] core::mem::forget(_verif_err); #[cfg(not(kani))] drop(_verif_err);", txt)
+    txt = IO_ERR_EXPR.sub(lambda m: "%smove |_verif_err| { #[cfg(kani)] core::mem::forget(_verif_err); #[cfg(not(kani))] drop(_verif_err); %s }" % (m.group(1), m.group(2)), txt)
+    return txt
+
+
 def build_overlay(scratch, only_files=None):
     """Copy the current working tree's crate source and attach the harness modules."""
     ds = os.path.join(scratch, "ds")
@@ -277,6 +293,7 @@ def build_overlay(scratch, only_files=None):
             digest.update(p[len(ds):].encode())
             digest.update(txt.encode())
             new = txt.replace("#[cfg(test)]", "#[cfg(verif_never)]")
+            new = forget_read_errors(new)
             rel = os.path.relpath(p, os.path.join(ds, "src"))
             if rel in attach_map:
                 new += "\n"
